@@ -1,6 +1,7 @@
 package drv
 
 import (
+	"errors"
 	"fmt"
 	"os"
 	"path/filepath"
@@ -40,6 +41,9 @@ func (r *Result) String() string {
 	}
 	return s
 }
+
+// ErrConsumer is what an IterateDocs consumer of the harness returns to abort the iteration.
+var ErrConsumer = errors.New("verif: consumer error")
 
 func updaterFunc(u *m.Updater, res *Result) func(*document.Document) *document.Document {
 	return func(doc *document.Document) *document.Document {
@@ -204,6 +208,9 @@ func Exec(in *Inst, o m.Op) (res *Result) {
 	case "iterateDocs":
 		res.Err = db.IterateDocs(Query(o.Q), func(d *document.Document) error {
 			res.Docs = append(res.Docs, DocMap(d))
+			if o.Stop != 0 && len(res.Docs) == o.Stop {
+				return ErrConsumer // the consumer's own error (not the stop signal) at its Stop-th call
+			}
 			return nil
 		})
 	case "save":
